@@ -275,7 +275,7 @@ def resume_all(ctx: Ctx) -> None:
     ctx.ob(f, None, okc, "an operation none of whose outputs has a target (create-arrays) is always re-run", sel="all:create-arrays")
 
 
-@rule("RESUME-MARK-1", props=["C09"], floor=4)
+@rule("RESUME-MARK-1", props=["C09", "C10", "C07"], floor=4)
 def resume_mark(ctx: Ctx) -> None:
     """the `computed` marks are written only under `resume`, on a copy of the plan graph, for
     every node in topological order, before the executor is entered"""
@@ -617,3 +617,99 @@ def resume_pure(ctx: Ctx) -> None:
         )
         # ... and reads no remembered verdict either: every acceptance consults storage
         # (covered per output by RESUME-ALL-1's completeness facts)
+
+
+_PROVIDER_EXAMPLE = '''
+class Group(dict):
+    @property
+    def nchunks_initialized(self):
+        first = next(iter(self.values()))
+        return first.nchunks_initialized
+'''
+
+
+def _part_of_members(fn: ast.FunctionDef) -> ast.AST | None:
+    """in a method of a collection class: an expression that picks *one* member of self
+    (next(iter(self.values())), list(self.values())[0], self[<constant>]) — the evidence that
+    the answer is taken from part of the collection"""
+    me = fn.args.args[0].arg if fn.args.args else "self"
+
+    def is_members(e):
+        return (isinstance(e, ast.Call) and isinstance(e.func, ast.Attribute) and e.func.attr in ("values", "items", "keys") and isinstance(e.func.value, ast.Name) and e.func.value.id == me) or (isinstance(e, ast.Name) and e.id == me)
+
+    for n in ast.walk(fn):
+        if isinstance(n, ast.Call) and isinstance(n.func, ast.Name) and n.func.id == "next" and n.args:
+            a = n.args[0]
+            if isinstance(a, ast.Call) and isinstance(a.func, ast.Name) and a.func.id == "iter" and a.args and is_members(a.args[0]):
+                return n
+        if isinstance(n, ast.Subscript) and isinstance(n.slice, ast.Constant):
+            b = n.value
+            if isinstance(b, ast.Call) and isinstance(b.func, ast.Name) and b.func.id in ("list", "tuple", "sorted") and b.args and is_members(b.args[0]):
+                return n
+            if isinstance(b, ast.Name) and b.id == me:
+                return n
+    return None
+
+
+def _aggregates_members(fn: ast.FunctionDef) -> bool:
+    me = fn.args.args[0].arg if fn.args.args else "self"
+    for n in ast.walk(fn):
+        its = [g.iter for g in n.generators] if isinstance(n, (ast.GeneratorExp, ast.ListComp, ast.SetComp)) else [n.iter] if isinstance(n, ast.For) else []
+        for it in its:
+            if (isinstance(it, ast.Call) and isinstance(it.func, ast.Attribute) and it.func.attr in ("values", "items") and isinstance(it.func.value, ast.Name) and it.func.value.id == me) or (isinstance(it, ast.Name) and it.id == me):
+                return True
+    return False
+
+
+@rule("RESUME-PROVIDER-1", props=["C09", "C07"], floor=1)
+def resume_provider(ctx: Ctx) -> None:
+    """resume trusts what a stored array reports about itself (nchunks_initialized == nchunks):
+    a storage class that holds several arrays (a structured array kept as one array per
+    field) either does not offer that report — resume then refuses it — or answers for *all*
+    of its members; an answer taken from one member calls an operation finished whose other
+    fields were still being written when the run died"""
+    repo = ctx.repo
+    # the matcher must recognise the defect on a known example (the expected count on a
+    # healthy tree is zero)
+    ex = ast.parse(_PROVIDER_EXAMPLE).body[0]
+    exfn = next(n for n in ex.body if isinstance(n, ast.FunctionDef))
+    ctx.need(_part_of_members(exfn) is not None and not _aggregates_members(exfn), "RESUME-PROVIDER-1 self-check: the built-in example is not recognised")
+    n_coll = 0
+    for cls in repo.classes():
+        mq = cls.module.qual
+        if not mq.startswith("cubed.storage") and not mq.startswith("cubed.primitive"):
+            continue
+        bases = {unparse(b) for b in cls.node.bases}
+        coll = bool(bases & {"dict", "list", "Mapping", "MutableMapping", "UserDict", "OrderedDict"}) or any(_aggregates_members(m.node) or _part_of_members(m.node) is not None for m in cls.children.values() if m.is_func and isinstance(m.node, ast.FunctionDef))
+        if not coll:
+            continue
+        n_coll += 1
+        reporters = [m for nm, m in cls.children.items() if nm in ("nchunks_initialized",) and m.is_func and isinstance(m.node, ast.FunctionDef)]
+        if not reporters:
+            ctx.ob(cls, None, True, f"{cls.name} (a collection of arrays) offers no completeness report: resume refuses it instead of guessing", sel="provider:none")
+            continue
+        siblings = {nm: x for nm, x in cls.children.items() if x.is_func and isinstance(x.node, ast.FunctionDef)}
+        for m in reporters:
+            part = _part_of_members(m.node)
+            agg = _aggregates_members(m.node)
+            # one level through the class's own properties / methods (self._first.…)
+            me_ = m.node.args.args[0].arg if m.node.args.args else "self"
+            for a_ in ast.walk(m.node):
+                if isinstance(a_, ast.Attribute) and isinstance(a_.value, ast.Name) and a_.value.id == me_ and a_.attr in siblings and siblings[a_.attr] is not m:
+                    sn = siblings[a_.attr].node
+                    if part is None and _part_of_members(sn) is not None:
+                        part = a_
+                    agg = agg or _aggregates_members(sn)
+            if part is None and not agg:
+                ctx.need(False, f"{cls.name}.{m.name}: neither an aggregate over the members nor a pick of one; not decided")
+            ok = agg and part is None
+            ctx.ob(
+                m,
+                part,
+                ok,
+                f"{cls.name}.{m.name} answers for every member array"
+                + ("" if ok else f" — it answers from `{unparse(part, 40)}`, one member: a crash between the per-field writes of the last task leaves the other fields short, and resume skips the operation"),
+                sel=f"provider:all-members:{m.name}",
+                firm=True,
+            )
+    ctx.need(n_coll >= 1, "no collection-of-arrays storage class found (ZarrV3ArrayGroup expected)")
